@@ -645,6 +645,15 @@ def set_points(modnames: list[str], granularity: str = "line",
             mon.set_local_events(_TOOL, code, ev)
             _mon_codes.append(code)
             n += 1
+    if granularity == "line" and modnames:
+        # a pure-Python stdlib container is not atomic either: its operations, when library code calls them, get the
+        # same line points (no pynenc module uses one on the unchanged tree: no point is added there)
+        import weakref
+
+        seen: set = set()
+        for code in _iter_codes(weakref.WeakValueDictionary, seen):
+            mon.set_local_events(_TOOL, code, ev)
+            _mon_codes.append(code)
     return n
 
 
